@@ -252,9 +252,10 @@ def _lookup(seq, method, chain):
 
 
 def scaledupdim_identity(chain, ntrans):
-    """Structural predicate of finding C11-scaledupdim-identity-tail: the *tail* contains a plain Identity
-    (own-child transform of a trimmed point reference) directly after a ScaledUpdim, which the lookup code
-    reads as the encoded pair (child, edge)."""
+    """Out-of-scope predicate (coordinator ruling): the *tail* contains a plain Identity (own-child transform of a
+    trimmed OwnChildReference) directly after a ScaledUpdim, which uppermost() reads as the encoded pair
+    (child, edge).  No topology operation builds such a chain (only Transforms.edges() applied by hand to a trimmed
+    sequence followed by the own-child transform does); met cases are counted as out_of_scope, not looked up."""
     from nutils import transform
     return any(type(chain[k]) is transform.Identity and type(chain[k - 1]) is transform.ScaledUpdim for k in range(max(1, ntrans), len(chain)))
 
@@ -268,8 +269,7 @@ def check_found(seq, items, i, tail, chain, rng, rep, where, form='literal'):
         if form != 'literal':
             rep.count('rewritten_chain_not_resolved/' + form)
             return False
-        rep.violation('index_with_tail raised ValueError for element chain + valid tail', f'{where}: i={i} chain={chain!r}'[:1500],
-                      mechanism='C11-scaledupdim-identity-tail' if scaledupdim_identity(chain, len(chain) - len(tail)) else None, where=where, i=i, tail=repr(tail))
+        rep.violation('index_with_tail raised ValueError for element chain + valid tail', f'{where}: i={i} chain={chain!r}'[:1500], where=where, i=i, tail=repr(tail))
         return False
     if st == 'exc':
         rep.violation('index_with_tail raised unexpected exception', f'{where}: i={i} form={form} {out} chain={chain!r}'[:1500], where=where, i=i, tail=repr(tail))
@@ -482,6 +482,10 @@ def check_lookups(seq, refs, items, rng, rep, where, nlook, gc_stress=True, sibl
         check_found(seq, items, i, (), chain, rng, rep, where)
         ref = refs[i]
         tail, kinds = random_tail(ref, rng)
+        if tail and scaledupdim_identity(chain + tail, len(chain)):
+            rep.count('out_of_scope/own_child_identity_after_scaledupdim')
+            k0 = next(k for k in range(len(chain), len(chain) + len(tail)) if scaledupdim_identity((chain + tail)[:k + 1], len(chain)))
+            tail, kinds = tail[:k0 - len(chain)], kinds[:k0 - len(chain)]
         if tail:
             for kd in kinds:
                 rep.count('tail_item/' + kd)
@@ -604,6 +608,7 @@ def check_sequence(seq, refs, rng, rep, where, nlook=20, depth=1, siblings=(), r
     # GC stress *before* we hold any element chain: sequences that build chains on the fly
     # must hand out chains that still resolve after a collection
     n = len(seq)
+    pending = []
     if n:
         i0 = int(rng.integers(0, n))
         first = seq[i0]
@@ -611,18 +616,29 @@ def check_sequence(seq, refs, rng, rep, where, nlook=20, depth=1, siblings=(), r
         st, k = _lookup(seq, 'index', first)
         res.count('gc_lookups')
         if st != 'ok' or operator.index(k) != i0:
-            rep.violation('index(seq[i]) != i after gc.collect()', f'{where}: i={i0} -> {st} {k!r}', where=where, i=i0)
+            pending.append(('index(seq[i]) != i after gc.collect()', f'{where}: i={i0} -> {st} {k!r}', i0))
         del first
         gc.collect()
         st, k = _lookup(seq, 'index', seq[i0])
         res.count('gc_lookups')
         if st != 'ok' or operator.index(k) != i0:
-            rep.violation('index(seq[i]) != i for a chain re-created after gc.collect()', f'{where}: i={i0} -> {st} {k!r}', where=where, i=i0)
+            pending.append(('index(seq[i]) != i for a chain re-created after gc.collect()', f'{where}: i={i0} -> {st} {k!r}', i0))
     try:
         items = [tuple(t) for t in seq]
     except Exception as e:
         rep.violation('iterating the sequence raised', f'{where}: {type(e).__name__}: {e}'[:600], where=where)
         return
+    # documented precondition of Transforms: no chain of the sequence starts with another chain of the sequence
+    # (duplicates included).  Topology code can hand out such sequences (e.g. boundary opposites of a subset of a
+    # periodic mesh with two elements in the periodic direction name the same neighbour edge twice); lookups are
+    # ambiguous there, so nothing is demanded (that is C10's business) and the sequence is only counted.
+    idset = {tuple(map(id, t)) for t in items}
+    if len(idset) != len(items) or any(tuple(map(id, t[:m])) in idset for t in items for m in range(1, len(t))):
+        res.count('sequences_violating_prefix_precondition')
+        res.add('prefix_precondition_violated_in', where.split('[')[0] + ':' + s)
+        return
+    for monitor, detail, i0 in pending:
+        rep.violation(monitor, detail, where=where, i=i0)
     if len(items) != len(refs):
         rep.violation('len(list(seq)) != len(references)', f'{where}: {len(items)} != {len(refs)}', where=where)
         return
